@@ -49,6 +49,7 @@ PROPERTY_BOUNDED = {
 NEEDS_WITNESS = {'function_name', 'relpath', 'discover', 'sourceview', 'ram_bundle', 'index_flatten', 'index_nested', 'hermes_scope'}
 _results = {}
 _built = {}
+DEEP = False   # set by check.py in the thorough tier: harnesses enumerate their larger stated spaces
 
 
 def run_harness(name):
@@ -56,6 +57,8 @@ def run_harness(name):
     if name in _results:
         return _results[name]
     env = dict(os.environ, VERIF_REPO=REPO)
+    if DEEP:
+        env['VERIF_DEEP'] = '1'
     try:
         p = subprocess.run([os.path.join(VERIF, 'bin', 'bounded'), name], capture_output=True, text=True, timeout=900, env=env)
         lines = [l for l in p.stdout.strip().split('\n') if l.startswith('{')]
